@@ -5,6 +5,7 @@
 package c04
 
 import (
+	"context"
 	"fmt"
 	"sort"
 	"strings"
@@ -16,6 +17,8 @@ import (
 	cidlink "github.com/ipld/go-ipld-prime/linking/cid"
 	"github.com/ipni/go-libipni/announce"
 	"github.com/ipni/go-libipni/dagsync"
+	"github.com/libp2p/go-libp2p"
+	pubsub "github.com/libp2p/go-libp2p-pubsub"
 	"github.com/libp2p/go-libp2p/core/peer"
 	"github.com/multiformats/go-multiaddr"
 
@@ -44,6 +47,10 @@ type mode struct {
 	// Retry: the subscriber uses the retrying HTTP client (one retry): a fault
 	// that a retry overcomes is masked, everything else is as without it
 	Retry bool
+	// Resend: the subscriber has a libp2p host and a gossipsub topic, and its
+	// receiver republishes direct announcements on it (announce.WithResend);
+	// its own republication comes back on the topic and has to be ignored.
+	Resend bool
 }
 
 func (m mode) String() string {
@@ -53,6 +60,9 @@ func (m mode) String() string {
 	}
 	if m.Retry {
 		s += ",retrying-client"
+	}
+	if m.Resend {
+		s += ",pubsub-topic-and-resend"
 	}
 	return s
 }
@@ -103,6 +113,8 @@ type runner struct {
 	lst    *syncfx.Listener
 	id     *fixture.Identity
 	ctxErr error
+	// stopPubsub shuts down the host and topic of a Resend mode
+	stopPubsub func()
 }
 
 func newRunner(m mode) *runner {
@@ -122,11 +134,37 @@ func newRunner(m mode) *runner {
 	if m.Retry {
 		opts = append(opts, dagsync.RetryableHTTPClient(1, time.Millisecond, 2*time.Millisecond))
 	}
-	if m.Kind == "announce" {
+	stopPubsub := func() {}
+	switch {
+	case m.Kind == "announce" && m.Resend:
+		h, err := libp2p.New(libp2p.NoListenAddrs, libp2p.Identity(fixture.Key("ed25519", 95).Priv))
+		if err != nil {
+			panic(err)
+		}
+		psCtx, psCancel := context.WithCancel(context.Background())
+		ps, err := pubsub.NewGossipSub(psCtx, h)
+		if err != nil {
+			panic(err)
+		}
+		topic, err := ps.Join("/indexer/ingest/c04")
+		if err != nil {
+			panic(err)
+		}
+		w.Host = h
+		stopPubsub = func() {
+			topic.Close()
+			psCancel()
+			h.Close()
+			// gossipsub's background loops notice their cancelled context only
+			// when they wake: let virtual time pass
+			time.Sleep(30 * time.Minute)
+		}
+		opts = append(opts, dagsync.RecvAnnounce("", announce.WithTopic(topic), announce.WithResend(true), announce.WithAllowPeer(func(peer.ID) bool { return true })))
+	case m.Kind == "announce":
 		opts = append(opts, dagsync.RecvAnnounce("", announce.WithAllowPeer(func(peer.ID) bool { return true })))
 	}
 	w.NewSubscriber(opts...)
-	rn := &runner{m: m, w: w, p: p, ch: ch, id: id}
+	rn := &runner{m: m, w: w, p: p, ch: ch, id: id, stopPubsub: stopPubsub}
 	rn.lst = w.Listen()
 	return rn
 }
@@ -134,6 +172,7 @@ func newRunner(m mode) *runner {
 func (rn *runner) close() {
 	rn.lst.Stop()
 	rn.w.Close()
+	rn.stopPubsub()
 }
 
 func (rn *runner) idx(c cid.Cid) int {
@@ -275,7 +314,7 @@ func ints(l []int) string { return strings.Trim(fmt.Sprint(l), "[]") }
 
 func TestCheck(t *testing.T) {
 	r := vp.New("C04", "fault_enumeration",
-		"modes: {libp2p-HTTP discovery, plain HTTP, plain HTTP served under a URL path prefix and named by an http-path address} x {plain / retrying HTTP client (RetryableHTTPClient, one retry)} x {1, 2 addresses} x {explicit sync with queried head, with explicit head, announce-triggered} x {unsegmented, segment size 1, 2} x {nothing synced before, part of the chain synced before} on a chain of L advertisements. For each mode a fault-free reference run fixes the request positions; then every fault kind (HTTP 400/403/404/500/503, connection closed, declared length longer than body, corrupt body, substituted body, empty body, stalled response, caller cancellation during a request, hook failure per block in segmented mode (FailSync alone, FailSync followed by SetNextSyncCid(cid.Undef), and an error returned by the callback of the library's MakeGeneralBlockHook), caller cancellation from inside each block-hook call i.e. between requests and between segments, an address for which no client can be created) at every position, singly, in pairs over a reduced kind set (quick: 404 / 403 / 500 / connection closed / unusable address) and over the larger kind set (thorough), within one attempt and across attempt and retry, each followed by a fault-free retry on the same subscriber. Non-trivial: every faulted run. Distinct = distinct (mode, fault script).",
+		"modes: {libp2p-HTTP discovery, plain HTTP, plain HTTP served under a URL path prefix and named by an http-path address} x {plain / retrying HTTP client (RetryableHTTPClient, one retry)} x {announcements also to a subscriber with a gossipsub topic whose receiver republishes them (WithResend)} x {1, 2 addresses} x {explicit sync with queried head, with explicit head, announce-triggered} x {unsegmented, segment size 1, 2} x {nothing synced before, part of the chain synced before} on a chain of L advertisements. For each mode a fault-free reference run fixes the request positions; then every fault kind (HTTP 400/403/404/500/503, connection closed, declared length longer than body, corrupt body, substituted body, empty body, stalled response, caller cancellation during a request, hook failure per block in segmented mode (FailSync alone, FailSync followed by SetNextSyncCid(cid.Undef), and an error returned by the callback of the library's MakeGeneralBlockHook), caller cancellation from inside each block-hook call i.e. between requests and between segments, an address for which no client can be created) at every position, singly, in pairs over a reduced kind set (quick: 404 / 403 / 500 / connection closed / unusable address) and over the larger kind set (thorough), within one attempt and across attempt and retry, each followed by a fault-free retry on the same subscriber. Non-trivial: every faulted run. Distinct = distinct (mode, fault script).",
 		"stalled responses and time-outs run in virtual time inside a synctest bubble; the horizon for 'no event will come' is 30 virtual minutes",
 		"a fault that the client masks (address fail-over, legacy path fallback) must leave all observations equal to the fault-free reference",
 		"the stream-reset retry branch needs a libp2p stream transport and is not driven",
@@ -309,6 +348,13 @@ func TestCheck(t *testing.T) {
 	for _, disc := range []bool{true, false} {
 		for _, kind := range []string{"queried", "announce"} {
 			modes = append(modes, mode{Discovery: disc, Kind: kind, Seg: -1, L: L, Retry: true})
+		}
+	}
+	// announcements handed to a subscriber whose receiver republishes them on
+	// a pubsub topic (and hears its own republication)
+	for _, disc := range []bool{true, false} {
+		for _, seg := range []int64{-1, 1} {
+			modes = append(modes, mode{Discovery: disc, Kind: "announce", Seg: seg, L: L, Resend: true})
 		}
 	}
 	// a plain-HTTP publisher served under a URL path prefix
